@@ -145,8 +145,14 @@ def assignEpochs : List (List (List (List String)) × Bool) → List (List (List
   `check-cat <n> <buffer>*n <flat buffer>`                → `ok` | `fail pad-not-masked`
   `rbepoch <b> <perm> <n> <buffer>*n`                     → `ok <nb> <flat buffer>*nb`
   `isperm <n> <perm>`                                     → `true` | `false`
+  `sizes <n> <b> <len>*`                                  → `ok` | `fail batch-size`   (`sizesOK`, C20_batch_lengths)
 -/
 def handle : List String → Option String
+  | "sizes" :: n :: b :: rest => do
+    let n ← n.toNat?
+    let b ← b.toNat?
+    let ls ← rest.mapM String.toNat?
+    pure (if sizesOK n b ls then "ok" else "fail batch-size")
   | "session" :: b :: bt :: k :: rest => do
     let b ← b.toNat?
     let bt ← parseBatchesOpt bt
